@@ -33,6 +33,7 @@ SEEDS = {
  'C13a': ('C13', 'backmp11 favor_compile_time: transition_chain::execute starts from FALSE and its caller overwrites the submachine result', 'submachine answers GUARD_REJECT and the composite state has no enabled outgoing row for the event (favor_compile_time only)'),
  'C13b': ('C13', 'backmp11 favor_runtime_speed needs_forward_transition: no longer looks into sub-submachines (a type computation)', 'three-level hierarchy, event only the innermost machine has rows for, middle machine does not mention it'),
  'C14a': ('C14', 'puml parse_row_right: action length clamped to 0 when the guard is written before the action list', 'a transition line of the form  A -> B : ev [guard] / action'),
+ 'C14c': ('C14', 'functor Internal<> rows with an action always answer HANDLED_TRUE (instead of get_functor_return_value<Action>)', 'state-local internal row whose action defers (Defer or a deferring sequence): answers TRUE, the back-end re-dispatches the deferred event at once'),
  'C15a': ('C15', 'ShallowHistoryImpl::operator=: remembered states loaded from the source\'s initial states', 'copy of a machine whose history region was left in a non-initial state, followed by a history re-entry'),
  'C15c': ('C15', 'back/back11 do_copy: the copy_helper pass (re-pointing the copied substates to the copy) removed as redundant', 'state using the sm_ptr policy in a copied machine: its fsm pointer designates the source'),
  'C16a': ('C16', 'history policies: serialize no longer archives m_initialStates (the memory of AlwaysHistory)', 'AlwaysHistory submachine left in a non-initial state, saved, restored, re-entered'),
@@ -51,8 +52,10 @@ SEEDS = {
  'C18b': ('C18', 'back defer_event_kleene_helper binds the type carrier ev instead of any_cast<Event>(m_event) (the same edit as C18a, found independently)', 'Kleene row that defers an event with a non-default payload'),
  'C19a': ('C19', 'back g_row_: the after_action store was dropped', 'policy after_transition_action, guard-only row, observation from the target entry'),
  'C19b': ('C19', 'backmp11 transition::execute: the after_action state switch moved inside `if constexpr (HasAction)`', 'active_state_switch_after_transition_action, external row without an action, observation from the target entry'),
+ 'C19c': ('C19', 'back11 g_row_ / _row_: the after_action state store dropped ("no action, nothing to switch")', 'back11, active_state_switch_after_transition_action, action-less external row, observation from the target entry'),
  'C20a': ('C20', 'basic_polymorphic_base move assignment: control block replaced before destroy()', 'deque erase in the middle with a neighbour of another storage class / destructor'),
  'C20b': ('C20', 'backmp11 basic_polymorphic IsInline: alignment test relaxed to alignof(max_align_t) although the inline buffer is only pointer-aligned', 'stored event with 8 < alignof <= 16 (long double, __int128, alignas(16)) that fits the buffer'),
+ 'C20c': ('C20', 'back/back11 process_message_queue: the stored functor is called in place (front()()) and popped afterwards', 'queue_container_circular at capacity while the dispatched event\'s action submits one more: the event under dispatch is overwritten, a pending one is lost'),
 }
 ids = sys.argv[1:] or sorted(SEEDS)
 rows = []
